@@ -85,6 +85,8 @@ def _loads_kvn(string):
                 obj = Azimut(path, date, np.radians(-value))
             elif key == "ANGLE_2" and meta["ANGLE_TYPE"] == "AZEL":
                 obj = Elevation(path, date, np.radians(value))
+            elif key == "DOPPLER_INSTANTANEOUS":
+                obj = Doppler(path, date, value)
             else:
                 raise CcsdsError(f"Unknown type : {key}")
 
@@ -140,6 +142,8 @@ def _loads_xml(string):
                 measures.append(Azimut(path, date, np.radians(-value)))
             elif meas_type == "ANGLE_2" and angle_type == "AZEL":
                 measures.append(Elevation(path, date, np.radians(value)))
+            elif meas_type == "DOPPLER_INSTANTANEOUS":
+                measures.append(Doppler(path, date, value))
             else:
                 raise CcsdsError(f"Unknown type : {meas_type}")
 
@@ -171,7 +175,7 @@ def collect_metadata(path, measure_set):
 
     if "Range" in measure_set.types:
         meta["RANGE_UNITS"] = "km"
-    if "Azimut" in measure_set.types:
+    if "Azimut" in measure_set.types or "Elevation" in measure_set.types:
         meta["ANGLE_TYPE"] = "AZEL"
     return meta
 
